@@ -45,11 +45,13 @@ PROPS = {
                    'history (rev_ext); (2) reverse_changes implements `undo` for every entry kind; (3) fetch_and_run: a completed instruction '
                    'ends the log with SetIp(old ip) and everything below it undoes to the old machine, a failing instruction leaves only '
                    'undoable changes and the ip on itself. Quantified over all states, stack depths, log lengths, opcodes.',
-        level_note='Assumed: the native-word contract for words called through a function pointer (call_native: keeps bases/ip, changes are '
-                   'undoable) - proved only for the native words that are themselves under contract; rnext/run/next (closures capturing &mut self) '
-                   'are not under contract, so "k backward steps" is the per-instruction inverse composed by hand; rpds/std contracts; derive(Clone) is structural.',
-        not_decided=['rnext loop itself (pop until SetIp) - its building blocks reverse_changes/add_reverse_step are proved',
-                     'native words not under contract are covered only by the assumed native-word contract'],
+        level_note='(4) rnext (verbatim; its one-line non-capturing closure becomes a named helper with the literal contract of that line): if the log ends with a completed '
+                   'instruction that started in state a, one rnext restores exactly a\'s machine and log; closing lemma: fetch_and_run followed by rnext is the identity on machine state and log, '
+                   'so by induction k backward steps undo k forward steps. Assumed: the native-word contract for words called through a function pointer (call_native: keeps bases/ip, changes are '
+                   'undoable) - PROVED for the ~60 native words that are themselves under contract (arithmetic, collection, cursor, stack words), backed by the frame scan for the rest; '
+                   'termination of the rnext loop is not proved; run/next (closures capturing &mut self) are not under contract; rpds/std contracts; derive(Clone) is structural.',
+        not_decided=['native words not under contract are covered only by the assumed native-word contract + frame scan',
+                     'termination of rnext', 'run / next wrappers (they only add error-location bookkeeping around fetch_and_run)'],
     ),
     'C14': dict(
         title='Resource limits are hard bounds and hitting one is recoverable',
